@@ -21,6 +21,7 @@ type loopInfo struct {
 	modGhost []string
 	rangeIdx *ssa.Alloc
 	rangeLen ssa.Value
+	countVar *ssa.Alloc // counting loop `for i := c; i < e; i++`: the local counting completed iterations
 	hasDefer bool
 	src      string
 	ordinal  int
@@ -673,21 +674,110 @@ func (x *Exec) analyzeLoops() {
 				li.rangeLen = b.Y
 			}
 		}
+		if li.rangeIdx == nil {
+			li.countVar = countingVar(li)
+		}
 		x.computeLoopMods(li)
 	}
-	// attach contracts
+	// attach contracts: by the source text of the loop statement; contracts left over are
+	// matched by position to the loops left over when their numbers agree, so that rewriting a
+	// loop header (range <-> index form, renamed loop variable) is not contract drift
 	if x.fc != nil {
+		var left []*LoopContract
 		for _, lc := range x.fc.Loops {
+			found := false
 			for _, h := range heads {
 				li := x.loops[h]
 				if li.lc == nil && li.src != "" && strings.HasPrefix(li.src, lc.Anchor) {
 					li.lc = lc
 					lc.Used++
+					found = true
 					break
+				}
+			}
+			if !found {
+				left = append(left, lc)
+			}
+		}
+		if len(left) > 0 {
+			var free []*loopInfo
+			for _, h := range heads {
+				if li := x.loops[h]; li.lc == nil && li.stmt != nil {
+					free = append(free, li)
+				}
+			}
+			sort.SliceStable(free, func(i, j int) bool { return free[i].stmt.Pos() < free[j].stmt.Pos() })
+			if len(free) == len(left) {
+				for k, lc := range left {
+					free[k].lc = lc
+					lc.Used++
+					x.note("loop contract %q matched by position to loop %d (%s)", lc.Anchor, free[k].ordinal, free[k].src)
 				}
 			}
 		}
 	}
+}
+
+// countingVar recognises `for i := c; i < e; i++` (any initial value): the head compares a
+// non-escaping local with something, and the only store to that local inside the loop adds 1.
+func countingVar(li *loopInfo) *ssa.Alloc {
+	var cand *ssa.Alloc
+	for _, in := range li.head.Instrs {
+		if b, ok := in.(*ssa.BinOp); ok && (b.Op == token.LSS || b.Op == token.LEQ || b.Op == token.NEQ) {
+			if ld, ok := b.X.(*ssa.UnOp); ok && ld.Op == token.MUL {
+				if al, ok := ld.X.(*ssa.Alloc); ok && !al.Heap {
+					if bt, ok := derefType(al.Type()).Underlying().(*types.Basic); ok && bt.Info()&types.IsInteger != 0 {
+						cand = al
+					}
+				}
+			}
+		}
+	}
+	if cand == nil {
+		return nil
+	}
+	if _, ok := li.head.Instrs[len(li.head.Instrs)-1].(*ssa.If); !ok {
+		return nil
+	}
+	stores := 0
+	for b := range li.body {
+		for _, in := range b.Instrs {
+			st, ok := in.(*ssa.Store)
+			if !ok || st.Addr != ssa.Value(cand) {
+				continue
+			}
+			stores++
+			add, ok := st.Val.(*ssa.BinOp)
+			if !ok || add.Op != token.ADD {
+				return nil
+			}
+			ld, ok := add.X.(*ssa.UnOp)
+			if !ok || ld.Op != token.MUL || ld.X != ssa.Value(cand) {
+				return nil
+			}
+			if c, ok := add.Y.(*ssa.Const); !ok || c.Value == nil || c.Value.ExactString() != "1" {
+				return nil
+			}
+		}
+	}
+	// the address must not be taken otherwise
+	if refs := cand.Referrers(); refs != nil {
+		for _, r := range *refs {
+			switch r := r.(type) {
+			case *ssa.Store:
+				if r.Addr != ssa.Value(cand) {
+					return nil
+				}
+			case *ssa.UnOp, *ssa.DebugRef:
+			default:
+				return nil
+			}
+		}
+	}
+	if stores != 1 {
+		return nil
+	}
+	return cand
 }
 
 // rootAlloc follows FieldAddr/IndexAddr chains to a non-escaping local Alloc.
@@ -733,7 +823,7 @@ func (x *Exec) computeLoopMods(li *loopInfo) {
 			for k := range x.W.instrWrites(x, in) {
 				keys[k] = true
 			}
-			for _, h := range x.hooksAt[in] {
+			addHook := func(h *Hook) {
 				for _, a := range h.Actions {
 					if a.Kind == "set" {
 						if _, isHeap := x.CS.GhostHeaps[a.Var]; isHeap {
@@ -743,6 +833,14 @@ func (x *Exec) computeLoopMods(li *loopInfo) {
 							ghosts[a.Var] = true
 						}
 					}
+				}
+			}
+			for _, h := range x.hooksAt[in] {
+				addHook(h)
+			}
+			if ci, ok := in.(ssa.CallInstruction); ok {
+				if callee := ci.Common().StaticCallee(); callee != nil && x.wouldInline(callee) {
+					x.inlinedHookGhosts(callee, 1, map[*ssa.Function]bool{}, addHook)
 				}
 			}
 			if nx, ok := in.(*ssa.Next); ok {
@@ -938,4 +1036,77 @@ func (x *Exec) mapHooks() {
 		}
 	}
 	anon(x.fn)
+	// store / map update / delete hooks are anchored at Type.field, not at source text: they
+	// also fire inside callees that are inlined (a map write moved into a small helper)
+	seen := map[*ssa.Function]bool{x.fn: true}
+	var inl func(fn *ssa.Function, depth int)
+	inl = func(fn *ssa.Function, depth int) {
+		if depth > maxInlineDepth {
+			return
+		}
+		for _, b := range fn.Blocks {
+			for _, in := range b.Instrs {
+				ci, ok := in.(ssa.CallInstruction)
+				if !ok {
+					continue
+				}
+				callee := ci.Common().StaticCallee()
+				if callee == nil || seen[callee] || !x.wouldInline(callee) {
+					continue
+				}
+				seen[callee] = true
+				for _, cb := range callee.Blocks {
+					for _, cin := range cb.Instrs {
+						evs := x.eventTexts(cin)
+						for _, h := range x.fc.Hooks {
+							if h.Kind != "store" && h.Kind != "mapupdate" && h.Kind != "delete" {
+								continue
+							}
+							if txt, ok := evs[h.Kind]; ok && anchorMatch(h.Anchor, txt) {
+								x.hooksAt[cin] = append(x.hooksAt[cin], h)
+								h.Used++
+							}
+						}
+					}
+				}
+				inl(callee, depth+1)
+			}
+		}
+	}
+	inl(x.fn, 1)
+	for _, a := range x.fn.AnonFuncs {
+		inl(a, 1)
+	}
+}
+
+// wouldInline tells (statically) whether a call of callee is executed by inlining its body.
+func (x *Exec) wouldInline(callee *ssa.Function) bool {
+	if callee.Pkg == nil || !x.P.Verified[callee.Pkg.Pkg.Path()] || len(callee.Blocks) == 0 || callee.Parent() != nil {
+		return false
+	}
+	fc := x.W.ContractFor(callee)
+	if fc != nil && !fc.Inline && (fc.Trusted || len(fc.Ensures) > 0 || len(fc.Requires) > 0 || fc.Pure || hasLoops(callee)) {
+		return false
+	}
+	return !hasLoops(callee) || (fc != nil && fc.Inline)
+}
+
+// inlinedHookGhosts collects the ghosts set by hooks mapped inside callees that are inlined.
+func (x *Exec) inlinedHookGhosts(fn *ssa.Function, depth int, seen map[*ssa.Function]bool, add func(h *Hook)) {
+	if depth > maxInlineDepth || seen[fn] {
+		return
+	}
+	seen[fn] = true
+	for _, b := range fn.Blocks {
+		for _, in := range b.Instrs {
+			for _, h := range x.hooksAt[in] {
+				add(h)
+			}
+			if ci, ok := in.(ssa.CallInstruction); ok {
+				if callee := ci.Common().StaticCallee(); callee != nil && x.wouldInline(callee) {
+					x.inlinedHookGhosts(callee, depth+1, seen, add)
+				}
+			}
+		}
+	}
 }
